@@ -92,6 +92,17 @@ CHECKS = [
   "design_ref": "DESIGN.md §6 C01",
   "note": TB + " encoding/json and reflect are parameters/trusted; the model executes on argument indices, value fidelity is checked by the harness oracle.",
   "technique": "Lean 4 theorems (structural induction over argument lists, parametric codec) + regenerated skeleton facts + differential correspondence"},
+ {"property_id": "C20",
+  "text": "Theorems over the model of waitReadCloser and the rendezvous table: for every read/close sequence of the handler and every "
+          "chunking of the body the bytes handed over followed by the unread rest are exactly the caller's bytes; end-of-file is reported "
+          "only when everything was delivered, then sticks for every further read; no sequence closes the wait channel twice (no crash); "
+          "the upload request is released only by an end-of-file report or Close; for every interleaving of upload and decoder arrivals a "
+          "decoder only ever receives a body uploaded under its own uuid. Tie: regenerated skeletons of waitReadCloser.Read/Close, "
+          "ReaderParamDecoder/Encoder + scenarios with the real encoder/decoder pair (lengths around buffer sizes up to MiBs, 7 read "
+          "patterns, both arrival orders, ws/http, 1..8 concurrent calls) whose traced reads are replayed through the model.",
+  "design_ref": "DESIGN.md §6 C20",
+  "note": TB + " The table's arrival interleavings are proved, not observed (no hook in httpio); scenarios force both orders.",
+  "technique": "Lean 4 theorems (induction over read/close sequences and arrival events) + regenerated skeleton facts + trace replay of real reads through the model"},
 ]
 
 _PENDING = "check under construction in this round (see DESIGN.md §13 build order); not claimed until its theorem file, tie and unchanged-tree sweep exist"
